@@ -243,8 +243,9 @@ class CoderState(object):
         subsets. It is only used for compressed data. For an example, to ensure
         the delayed replication factors are the same for all subsets.
         """
-        minv, maxv = CoderState.minmax([values[idx] for values in self.decoded_values_all_subsets])
-        assert minv == maxv, 'Values from all subsets are NOT identical'
+        values = [values[idx] for values in self.decoded_values_all_subsets]
+        if any(value != values[0] for value in values):
+            raise PyBufrKitError('Values from all subsets are NOT identical: {!r}'.format(values))
 
     @staticmethod
     def minmax(values):
